@@ -156,6 +156,7 @@ fn check_lua(text: &str, data: &Data, plain_lua: bool) -> Option<String> {
 
 const AWKWARD_STRINGS: &[&str] = &[
     "", "a", "end", "nil", "1a", "a b", "a\"b", "a'b", "a\\b", "a\nb", "a\r\nb", "é", "\u{0}", "\u{7f}", "]]", "[[", "--", "\t", "\\n", "\u{feff}x", "😀", "a]=]b", "'\"", "\u{1}1", "0", "-1", "true", "%s", "{}", "`x`",
+    "café", "naïve_key", "x²", "a日本", "_é", "k9é", "straße", "Ωmega", "a\u{301}",
     "long long long long long long long long long long long long long long long\nwith\nseveral\nlines\nin\nit\nand more",
     // long texts (the writers switch to long-bracket form) with carriage returns, which long brackets cannot hold
     "line one\r\nline two\r\nline three\r\nline four\r\nline five\r\nline six\r\nline seven\r\n",
@@ -390,6 +391,56 @@ fn check_doc(doc: &Doc) -> (u64, bool, Vec<Violation>) {
     (n, judged, v)
 }
 
+/// the real `darklua convert` command on a file must print exactly what the library conversion of the same text gives
+fn cli_cases(docs: &[Doc], report: &mut Report) {
+    let binary = match dl::darklua_binary() {
+        Ok(b) => b,
+        Err(e) => crate::common::machinery_error(&e),
+    };
+    let hand_written = JSON5_TEXTS.len() + YAML_TEXTS.len() + TOML_TEXTS.len();
+    let chosen: Vec<&Doc> = docs.iter().enumerate().filter(|(i, _)| i % 61 == 0 || *i + hand_written >= docs.len()).map(|(_, d)| d).collect();
+    let dir = match tempfile::tempdir() {
+        Ok(d) => d,
+        Err(e) => crate::common::machinery_error(&format!("tempdir: {}", e)),
+    };
+    let results: Vec<Option<Violation>> = chosen
+        .par_iter()
+        .enumerate()
+        .map(|(i, doc)| {
+            let (fmt, text) = doc_text(doc);
+            let ext = match (fmt, i % 3) {
+                ("json", 1) => "json5",
+                ("yaml", 1) => "yml",
+                (f, _) => f,
+            };
+            let input = dir.path().join(format!("doc{}.{}", i, ext));
+            let output = dir.path().join(format!("doc{}.lua", i));
+            if std::fs::write(&input, text).is_err() {
+                return None;
+            }
+            let run = std::process::Command::new(&binary).arg("convert").arg(&input).arg(&output).output();
+            let expected = convert(doc);
+            let got = std::fs::read_to_string(&output).ok();
+            let status_ok = run.as_ref().map(|o| o.status.success()).unwrap_or(false);
+            let problem = match (&expected, status_ok, &got) {
+                (Ok(Some((lua, _))), true, Some(g)) if g == lua => None,
+                (Ok(Some((lua, _))), _, g) => Some(format!("`darklua convert` wrote {:?} (exit ok: {}), the conversion of the same text gives {:?}", g, status_ok, lua)),
+                (Ok(None), false, None) => None,
+                (Ok(None), _, g) => Some(format!("the text is rejected by the data crate but `darklua convert` wrote {:?} (exit ok: {})", g, status_ok)),
+                (Err(_), _, _) => None,
+            };
+            problem.map(|pb| Violation {
+                finding: None,
+                summary: format!("{}\n--- file with extension .{} holding {:?}", pb, ext, text),
+                replay: json!({"kind": "cli convert", "extension": ext, "document": text, "problem": pb}),
+            })
+        })
+        .collect();
+    report.evaluations += chosen.len() as u64;
+    report.set("cli_convert_invocations", chosen.len() as u64);
+    report.violations.extend(results.into_iter().flatten());
+}
+
 pub fn run(tier: Tier) -> Report {
     let mut report = Report::new("C14", "exploration", tier);
     report.rule = "documents: every scalar of a 47-value menu (null, booleans, integers beyond 2^53, i64::MIN, u64::MAX, fractions, 1e21, -0, 31 awkward strings incl. keywords, quotes, \
@@ -400,7 +451,7 @@ pub fn run(tier: Tier) -> Report {
         with nulls absent, objects = exactly the non-null keys, strings byte-identical, numbers = nearest double, booleans kept). non-trivial = documents fully judged (no datetime/tag)"
         .to_owned();
     report.assumptions = vec![
-        "the serde data crates (json5, serde_yaml, toml) define the parsed data, exactly as the CLI uses them".to_owned(),
+        "the serde data crates (json5, serde_yaml, toml) define the parsed data, exactly as the CLI uses them; the real `darklua convert` binary is run on a subset of the documents (every hand-written format-specific text and every 61st generated one) with the extensions json/json5/yaml/yml/toml and must write exactly the library conversion of the same text".to_owned(),
         "YAML mappings with null or container keys and documents with TOML datetimes / YAML tags are only checked to produce parsable text".to_owned(),
     ];
     let mut docs: Vec<Doc> = Vec::new();
@@ -441,6 +492,7 @@ pub fn run(tier: Tier) -> Report {
         }
         report.violations.extend(v);
     }
+    cli_cases(&docs, &mut report);
     report.set("documents", docs.len() as u64);
     report.set("accepted_json_yaml_toml", json!(by_format));
     for i in [3, docs.len() / 3, docs.len() / 2, docs.len() - 30, docs.len() - 5] {
